@@ -1129,9 +1129,33 @@ class Basket(EmptyBox):
         return inner(before, 9000)
 
 
+class Shape:
+    def __init__(self, kids=()):
+        self.kids = list(kids)
+
+    def area(self, scale):
+        if self.kids:
+            return self.kids[0].area(scale + 1)
+        size = 2 * scale    #L3
+        return size
+
+
+class Group(Shape):
+    pass
+
+
+class Layer(Shape):
+    pass
+
+
+class Sprite(Shape):
+    pass
+
+
 def main():
     b = Basket()
     b.add(7)
+    shape = Group([Layer([Sprite()]), Sprite()]).area(3)
     return b.add(8)
 '''
 
@@ -1144,6 +1168,7 @@ def corpus():
     lines = a.split('\n')
     l1 = next(i + 1 for i, l in enumerate(lines) if '#L1' in l)
     l2 = next(i + 1 for i, l in enumerate(lines) if '#L2' in l)
+    l3 = next(i + 1 for i, l in enumerate(lines) if '#L3' in l)
 
     def case(tp, app=None):
         tp.setdefault('args', {})
@@ -1162,6 +1187,9 @@ def corpus():
               'limits': {'MAX_STRING_LENGTH': 8, 'MAX_COLLECTION_SIZE': 2, 'MAX_VAR_DEPTH': 3}}),
         case({'file': 'a', 'line': l2, 'args': {'frame_type': 'all_frame'}, 'watches': []},
              {'APP_ROOT': '$HOST', 'ENV_IN_APP_EXCLUDE': '$HOST/lib,$STD', 'IN_APP_INCLUDE': ['$HOST/app']}),
+        # one inherited method (one code object) on the stack three times, self of three classes
+        case({'file': 'a', 'line': l3, 'args': {'frame_type': 'all_frame'}, 'watches': ['type(self).__name__']}),
+        case({'file': 'a', 'line': l3, 'args': {'frame_type': 'single_frame'}, 'watches': ['scale']}),
     ]
 
 
